@@ -24,6 +24,7 @@ WALL_BUDGET = {"quick": 200, "thorough": 2400}
 KF = "epr-context:placeholder-qubits-stay-active"
 KF_NV = "epr-context:nv-multi-pair-target-preallocated"
 KF_ELECTRON = "nv-transpile:carbon-carbon-gate-needs-allocated-electron"
+KF_RETRY = "epr-retry:nv-relocation-inside-retry-loop"
 
 
 def gen_history(rng, budget, hw):
@@ -65,6 +66,22 @@ def gen_history(rng, budget, hw):
             live += names
             ops.append({"op": "epr_keep", "role": rng.choice(["create", "recv"]), "n": n, "names": names,
                         "with_info": rng.random() < 0.3})
+        elif r < 0.815 and free_slots >= 1:
+            # keep request with a fidelity constraint: the SDK wraps it in a retry loop that frees the qubits between attempts
+            n = rng.randrange(1, free_slots + 1)
+            names = []
+            for _i in range(n):
+                nq += 1
+                names.append(f"q{nq}")
+            live += names
+            ops.append({"op": "epr_retry", "role": rng.choice(["create", "recv"]), "n": n, "names": names,
+                        "retries": rng.choice([0, 1, 1, 2])})
+        elif r < 0.825 and free_slots >= 1:
+            # one pair, sequential=True, no post routine: legal, returns an ordinary handle
+            nq += 1
+            live.append(f"q{nq}")
+            ops.append({"op": "epr_keep", "role": rng.choice(["create", "recv"]), "n": 1, "names": [f"q{nq}"], "with_info": False,
+                        "sequential": True})
         elif r < 0.84 and free_slots >= 1:
             ops.append({"op": "epr_seq", "role": rng.choice(["create", "recv"]), "n": rng.randrange(1, 5)})
             ops.append({"op": "flush"})
@@ -114,6 +131,11 @@ def run_case(ctx, case):
     for o in ops:
         if o["op"] in ("epr_keep", "epr_seq", "epr_context"):
             plan.append(PlannedRequest(o["role"], "K", o["n"]))
+        elif o["op"] == "epr_retry":
+            for attempt in range(o["retries"] + 1):
+                slow = attempt < o["retries"]
+                plan.append(PlannedRequest(o["role"], "K", o["n"],
+                                           fields=(lambda k, name, slow=slow: (60000 if slow else 100) if name == "goodness" else None)))
     es = EPRSocket("bob")
     link = LinkModel(plan, partners=False)
     pipe = Pipe(epr_sockets=[es], link=link, max_qubits=case["budget"], hardware=case["hardware"],
@@ -128,6 +150,7 @@ def run_case(ctx, case):
     had_epr = bool(plan)
     had_leaky = False
     last_epr = None
+    relocation_in_retry_loop = False
     conn = pipe.conn
     try:
         for o in ops:
@@ -156,10 +179,21 @@ def run_case(ctx, case):
                     handles[o["q"]].reset()
                 elif k == "epr_keep":
                     ctx.count("epr_requests")
+                    kw = {"sequential": True} if o.get("sequential") else {}
                     if o["role"] == "create":
-                        qs = es.create_keep_with_info(o["n"])[0] if o["with_info"] else es.create_keep(o["n"])
+                        qs = es.create_keep_with_info(o["n"])[0] if o["with_info"] else es.create_keep(o["n"], **kw)
                     else:
-                        qs = es.recv_keep_with_info(o["n"])[0] if o["with_info"] else es.recv_keep(o["n"])
+                        qs = es.recv_keep_with_info(o["n"])[0] if o["with_info"] else es.recv_keep(o["n"], **kw)
+                    for name, q in zip(o["names"], qs):
+                        handles[name] = q
+                elif k == "epr_retry":
+                    ctx.count("epr_requests")
+                    ctx.count("epr_retry_requests")
+                    if case["hardware"] == "nv" and o["retries"] >= 1 and any(
+                            (not isinstance(q, FutureQubit)) and q.qubit_id == 0 for q in conn.active_qubits):
+                        relocation_in_retry_loop = True
+                    fn = es.create_keep if o["role"] == "create" else es.recv_keep
+                    qs = fn(o["n"], min_fidelity_all_at_end=80, max_tries=o["retries"] + 2)
                     for name, q in zip(o["names"], qs):
                         handles[name] = q
                 elif k == "epr_seq":
@@ -198,6 +232,10 @@ def run_case(ctx, case):
         return ctx.case(case, False)
     except hc.ControllerFault as cf:
         key = KF_ELECTRON if _carbon_carbon_without_electron(cf, case, conn) else None
+        if key is None and relocation_in_retry_loop and "is already allocated" in str(cf.exc):
+            # known mechanism: on NV a qubit sitting on ID 0 is moved away when an EPR request is built; for a request with a
+            # fidelity constraint that move is emitted inside the retry loop and executed again by every retry
+            key = KF_RETRY
         ctx.fail(case, f"controller fault while executing an SDK-emitted subroutine (budget {case['budget']}, {case['hardware']}"
                        f"{', transpiled' if case['transpile'] else ''}): {cf}", key=key)
         return ctx.case(case, True)
